@@ -54,6 +54,12 @@ NPQ_KERNELS = [
          branching=True),
     dict(name="SHAGA_update_u", file="optimizers/_shaga.py", cls="SHAGA", func="_update_u", params=[("u", "S1"), ("S", "VQ"), ("df", "VQ")], ret="S1",
          branching=True, ext_scalar_fn={"lehmer_mean": ("lehmerFn", ["x", "weight"])}),
+    # lehmer_mean (module-level function of optimizers/_shade.py) with power = 2: once as called with weights (SHAGA), once without (SHADE's F);
+    # which branch of `if weight is None` is taken is fixed per entry (`none_params`), the other one is not translated
+    dict(name="Lehmer_mean_weighted", file="optimizers/_shade.py", cls=None, func="lehmer_mean", params=[("x", "VQ"), ("weight", "VQ")], ret="S1",
+         branching=True, consts={"power": 2}, none_params={"weight": False}, py_params=["x", "power", "weight"]),
+    dict(name="Lehmer_mean_plain", file="optimizers/_shade.py", cls=None, func="lehmer_mean", params=[("x", "VQ")], ret="S1",
+         branching=True, consts={"power": 2}, none_params={"weight": True}, py_params=["x", "power", "weight"]),
     # coefficient_determination (C19), floats read as rationals; the literal 1e-10 is read as 1/10^10
     dict(name="Metrics_r2", file="utils/_metrics.py", cls=None, func="coefficient_determination", params=[("y_true", "VQ"), ("y_predict", "VQ")], ret="S1"),
     # the mean squared error inside root_mean_square_error (C19): everything before the square root, which must still be taken of it
@@ -367,6 +373,20 @@ class TrQ:
             if e.id not in self.env:
                 raise NotRecognised(f"unknown name {e.id}")
             return e.id, self.env[e.id]
+        if isinstance(e, ast.Call) and is_np(e.func, "power") and len(e.args) == 2 and not e.keywords:
+            x, k = self.E(e.args[0])
+            ex = e.args[1]
+            consts = self.cfg.get("consts", {})
+            if isinstance(ex, ast.Name) and ex.id in consts:
+                pw = consts[ex.id]
+            elif isinstance(ex, ast.BinOp) and isinstance(ex.op, ast.Sub) and isinstance(ex.left, ast.Name) and ex.left.id in consts \
+                    and isinstance(ex.right, ast.Constant) and isinstance(ex.right.value, int):
+                pw = consts[ex.left.id] - ex.right.value
+            else:
+                raise NotRecognised("exponent " + ast.unparse(ex))
+            if k != "VQ" or pw < 0:
+                raise NotRecognised("np.power operands")
+            return f"({x}.map (fun a => a ^ {pw}))", "VQ"
         if isinstance(e, ast.Attribute) and isinstance(e.value, ast.Name) and e.value.id == "self":
             for a, k in self.cfg.get("self_attrs", []):
                 if a == e.attr:
@@ -619,7 +639,7 @@ class TrQM(TrQ):
                 continue
             if isinstance(st, ast.Return) and st.value is not None:
                 x, k = self.E(st.value)
-                if k != self.cfg["ret"]:
+                if k != self.cfg["ret"] and not (k == "S" and self.cfg["ret"] == "S1"):
                     raise NotRecognised("returned kind")
                 self.lines.append(f"{ind}return {x}")
                 continue
@@ -634,6 +654,13 @@ class TrQM(TrQ):
                     self.lines.append(f"{ind}let mut {v} := {x}")     # (a name first assigned inside a branch is local to that branch)
                     self.declared.add(v)
                     self.env[v] = k
+                continue
+            if isinstance(st, ast.AnnAssign) and st.value is None:
+                continue
+            if isinstance(st, ast.If) and isinstance(st.test, ast.Compare) and isinstance(st.test.left, ast.Name) and len(st.test.ops) == 1 \
+                    and isinstance(st.test.ops[0], ast.Is) and is_const(st.test.comparators[0], None) and st.test.left.id in self.cfg.get("none_params", {}):
+                # `if p is None: ... else: ...` for a parameter whose None-ness is fixed by this entry: only that branch is translated
+                self.block(st.body if self.cfg["none_params"][st.test.left.id] else st.orelse, ind)
                 continue
             if isinstance(st, ast.If):
                 c = self.cond(st.test)
@@ -652,7 +679,7 @@ class TrQM(TrQ):
     def render(self):
         cfg = self.cfg
         plist = cfg["params"]
-        if [a.arg for a in self.fn.args.args if a.arg != "self"] != [p for p, _ in plist]:
+        if [a.arg for a in self.fn.args.args if a.arg != "self"] != cfg.get("py_params", [p for p, _ in plist]):
             raise NotRecognised("parameters")
         assigned = {t.id for st in ast.walk(self.fn) if isinstance(st, ast.Assign) for t in st.targets if isinstance(t, ast.Name)}
         self.declared = set()
@@ -667,7 +694,7 @@ class TrQM(TrQ):
         lean_k = {"VQ": "List Rat", "S1": "Rat"}
         fnp = [f"({lean} : " + " → ".join(["List Rat"] * len(names)) + " → Rat)" for lean, names in cfg.get("ext_scalar_fn", {}).values()]
         params = fnp + [f"({p} : {lean_k[k_]})" for p, k_ in plist]
-        return ("/- GENERATED by harness/extract/np2lean.py from src/thefittest/" + cfg["file"] + f" ({cfg['cls']}.{cfg['func']}) — do not edit -/\n"
+        return ("/- GENERATED by harness/extract/np2lean.py from src/thefittest/" + cfg["file"] + f" ({(cfg['cls'] + '.') if cfg['cls'] else ''}{cfg['func']}) — do not edit -/\n"
                 + "import TFV.Model.NpQ\nnamespace TFV.Generated.Src\nopen TFV\n\n"
                 + f"def {cfg['name']} " + " ".join(params) + " : Option Rat := do\n" + "\n".join(self.lines) + "\n\nend TFV.Generated.Src\n")
 
